@@ -278,3 +278,35 @@ M("c13_close_only_if_ready", ["C13"],
   ("lomond/session.py", "            # A no-op unless the consumer abandoned the generator\n            self._close_socket()\n",
    "            # A no-op unless the consumer abandoned the generator\n            if self._ready:\n                self._close_socket()\n"),
   equivalent=True)   # before Ready every in-loop event is yielded from feed(), whose GeneratorExit handler closes the socket
+
+# ---- C10 -----------------------------------------------------------------
+M("c10_no_accept_check", ["C10"],
+  ("lomond/websocket.py", "        if accept_header.lower() != challenge.lower():", "        if False:"))
+M("c10_no_status_check", ["C10"],
+  ("lomond/websocket.py", "        if response.status_code != 101:", "        if response.status_code is None:"))
+M("c10_key_reused_across_connects", ["C10", "C17"],
+  ("lomond/websocket.py", "        self.state = self.State()\n\n    @classmethod", "        self.state = self.State()\n        self._key0 = self.state.key\n\n    @classmethod"),
+  ("lomond/websocket.py", "        \"\"\"Reset the state.\"\"\"\n        self.state = self.State()", "        \"\"\"Reset the state.\"\"\"\n        self.state = self.State()\n        self.state.key = self._key0"))
+M("c10_no_header_size_limit", ["C10"],
+  ("lomond/frame_parser.py", "                b\"\\r\\n\\r\\n\", max_bytes=16 * 1024", "                b\"\\r\\n\\r\\n\", max_bytes=None"))
+M("c10_accept_prefix_compare", ["C10"],
+  ("lomond/websocket.py", "        if accept_header.lower() != challenge.lower():", "        if accept_header.lower()[:20] != challenge.lower()[:20]:"))
+M("c10_no_upgrade_check", ["C10"],
+  ("lomond/websocket.py", "        if upgrade_header != 'websocket':", "        if False:"))
+M("c10_upgrade_startswith", ["C10"],
+  ("lomond/websocket.py", "        if upgrade_header != 'websocket':", "        if not upgrade_header.startswith('websocket'):"))
+M("c10_query_dropped", ["C10"],
+  ("lomond/websocket.py", "        if _url.query:\n", "        if _url.query and _url.path:\n"))
+M("c10_header_limit_off_by_one", ["C10"],
+  ("lomond/parser.py", "        if self.max_bytes is not None and pos > self.max_bytes:", "        if self.max_bytes is not None and pos >= self.max_bytes:"))
+M("c10_status_line_prefix_match", ["C10"],
+  ("lomond/response.py", "            self.status_code = int(next(tokens, b''))", "            self.status_code = int(next(tokens, b'')[:3])"))
+M("c10_folded_header_dropped", ["C10"],
+  ("lomond/response.py", "                if header:\n                    headers[header].append(' ')\n                    headers[header].append(line.lstrip())",
+   "                if header:\n                    pass"))
+M("c10_header_names_case_sensitive", ["C10"],
+  ("lomond/response.py", "                header = header.lower().strip()", "                header = header.strip()"))
+M("c10_accept_strip_equals", ["C10"],
+  ("lomond/websocket.py", "        if accept_header.lower() != challenge.lower():", "        if accept_header.lower().rstrip('=') != challenge.lower().rstrip('='):"))
+M("c10_protocol_from_request", ["C10"],
+  ("lomond/websocket.py", "        protocol = response.get('sec-websocket-protocol')", "        protocol = response.get('sec-websocket-protocol') or (self.protocols[0] if self.protocols else None)"))
